@@ -1,38 +1,292 @@
 package main
 
+// The loop rule.  A function with a back edge needs, for every loop header (in
+// block order: ordinal 0, 1, …), a `//@ loop #k` block in its contract with
+// invariants and a modifies frame.  Obligations:
+//
+//   loop#k/entry      the invariant holds when the loop is first reached
+//   loop#k/preserve   it holds again at every back edge, and nothing outside the
+//                     loop's modifies set (and the header's phis) has changed
+//   (use)             after the header the state is arbitrary except for the
+//                     invariant; exits continue from there
+//
+// Loop variables named in `vars` are header phis, identified by the source
+// variable name go/ssa records in the phi's comment.  `range` over a map is
+// modelled with a ghost set of visited keys (a loop variable of type
+// [N]bool, phi name "visited").
+
 import (
+	"fmt"
+	"go/ast"
+	"go/types"
+
 	"golang.org/x/tools/go/ssa"
 )
 
-// Loop support (invariant rule).  See loops_impl for the full rule.
+type loopState struct {
+	spec     *LoopSpec
+	ordinal  int
+	header   *ssa.BasicBlock
+	phis     []*ssa.Phi
+	mods     []modEntry
+	headHeap Heap // havocked state at the header (frame reference)
+	iter     *IterV
+}
 
 type loopCtx struct {
-	x  *Exec
-	fn *ssa.Function
-	fi *fnInfo
+	x     *Exec
+	fn    *ssa.Function
+	fi    *fnInfo
+	c     *Contract
+	args  []Value
+	entry Heap // function entry heap (old)
+	loops map[*ssa.BasicBlock]*loopState
+	vals  map[ssa.Value]Value
+	get   func(ssa.Value) Value
+}
+
+// IterV is the iterator of a range-over-map loop.
+type IterV struct {
+	Map     *MapV
+	Visited *Term // Array K -> Bool
+	id      int
 }
 
 func (x *Exec) newLoopCtx(fn *ssa.Function, fi *fnInfo) *loopCtx {
-	unsupported("loop in %s (no invariant support yet)", fn.Name())
-	return nil
+	c := x.ld.contractFor(fn)
+	if c == nil || len(c.Loops) == 0 {
+		unsupported("loop in %s without a loop contract (invariant)", fnKey(fn))
+	}
+	l := &loopCtx{x: x, fn: fn, fi: fi, c: c, loops: map[*ssa.BasicBlock]*loopState{}}
+	for k, h := range fi.headers {
+		sp := c.Loops[k]
+		if sp == nil {
+			unsupported("loop #%d of %s has no invariant", k, fnKey(fn))
+		}
+		ls := &loopState{spec: sp, ordinal: k, header: h}
+		for _, ins := range h.Instrs {
+			if p, ok := ins.(*ssa.Phi); ok {
+				ls.phis = append(ls.phis, p)
+			}
+		}
+		l.loops[h] = ls
+	}
+	return l
 }
 
+func (l *loopCtx) loopVars(ls *loopState, phiVal func(p *ssa.Phi) Value) []Value {
+	var out []Value
+	for i := range ls.spec.Vars {
+		want := ls.spec.VarPhi[i]
+		var v Value
+		if want == "visited" && ls.iter != nil {
+			v = ls.iter.Visited
+		}
+		for _, p := range ls.phis {
+			if p.Comment == want {
+				v = phiVal(p)
+			}
+		}
+		if v == nil {
+			// a local that is not loop-carried: found through the debug references
+			for _, blk := range l.fn.Blocks {
+				for _, ins := range blk.Instrs {
+					if d, ok := ins.(*ssa.DebugRef); ok && !d.IsAddr {
+						if id, ok := d.Expr.(*ast.Ident); ok && id.Name == want {
+							if _, isPhi := d.X.(*ssa.Phi); !isPhi {
+								if val, ok := l.vals[d.X]; ok && v == nil {
+									v = val
+								}
+							}
+						}
+					}
+				}
+			}
+		}
+		if v == nil {
+			unsupported("loop #%d of %s: no header phi for variable %q", ls.ordinal, fnKey(l.fn), want)
+		}
+		out = append(out, v)
+	}
+	return out
+}
+
+func (l *loopCtx) evalInvariants(ls *loopState, st *State, vars []Value) []*Term {
+	var out []*Term
+	for _, cl := range ls.spec.Invariants {
+		out = append(out, l.x.evalPred(cl.Fn, l.args, l.entry, st, vars, nil).(*Term))
+	}
+	return out
+}
+
+// enterHeader is called when the header block is reached with the merged
+// forward-edge state.  It emits the entry obligation, havocs, assumes.
 func (l *loopCtx) enterHeader(blk *ssa.BasicBlock, pc *Term, cur *State, in []edge, vals map[ssa.Value]Value, get func(ssa.Value) Value) *Term {
+	x, b := l.x, l.x.b
+	ls := l.loops[blk]
+	l.vals, l.get = vals, get
+	if l.args == nil {
+		l.args = x.curArgs[len(x.curArgs)-1]
+		l.entry = x.curEntry[len(x.curEntry)-1]
+	}
+	// phi values from the forward edges
+	fwd := map[*ssa.Phi]Value{}
+	for _, p := range ls.phis {
+		var r Value
+		for k := range p.Edges {
+			if l.fi.back[blk][k] {
+				continue
+			}
+			e := in[k]
+			if e.cond == nil || e.cond.Op == "false" {
+				continue
+			}
+			v := get(p.Edges[k])
+			if r == nil {
+				r = v
+			} else {
+				r = x.iteV(e.cond, v, r)
+			}
+		}
+		fwd[p] = r
+	}
+	// a range iterator created before the loop belongs to it
+	for _, w := range ls.spec.VarPhi {
+		if w == "visited" && ls.iter == nil && len(x.iters) > 0 {
+			ls.iter = x.iters[len(x.iters)-1]
+		}
+	}
+	vars := l.loopVars(ls, func(p *ssa.Phi) Value { return fwd[p] })
+	for i, inv := range l.evalInvariants(ls, cur, vars) {
+		t := b.Implies(pc, inv)
+		if t.Op != "true" {
+			x.obligs = append(x.obligs, NamedTerm{fmt.Sprintf("%s/loop#%d/entry#%d", fnKey(l.fn), ls.ordinal, i), t})
+		}
+	}
+	// havoc the frame and the loop-carried phis
+	ls.mods = x.resolveMods(ls.spec.Modifies, l.args, cur, vars)
+	x.seq++
+	x.havoc(ls.mods, cur, fmt.Sprintf("loop%d_%d", ls.ordinal, x.seq))
+	for _, p := range ls.phis {
+		switch v := fwd[p].(type) {
+		case *Term:
+			vals[p] = b.Fresh(fmt.Sprintf("loop%d_%s", ls.ordinal, sanitize(p.Comment)), v.S)
+		default:
+			vals[p] = v
+		}
+	}
+	if ls.iter != nil {
+		ls.iter.Visited = b.Fresh(fmt.Sprintf("loop%d_visited", ls.ordinal), ls.iter.Visited.S)
+	}
+	vars = l.loopVars(ls, func(p *ssa.Phi) Value { return vals[p] })
+	for _, inv := range l.evalInvariants(ls, cur, vars) {
+		x.assume(b.Implies(pc, inv))
+	}
+	ls.headHeap = cur.h.clone()
 	return pc
 }
 
-// edge is called for every outgoing edge; returns true if the edge is a back
-// edge that was consumed (invariant preservation obligation emitted).
+// edge: called for every outgoing control edge; true if it is a back edge
+// (then the preservation obligations are emitted and the edge is consumed).
 func (l *loopCtx) edge(from *ssa.BasicBlock, succIdx int, cond *Term, st *State) bool {
-	return false
+	x, b := l.x, l.x.b
+	to := from.Succs[succIdx]
+	ls := l.loops[to]
+	if ls == nil {
+		return false
+	}
+	// which pred slot?
+	n := 0
+	for k := 0; k < succIdx; k++ {
+		if from.Succs[k] == to {
+			n++
+		}
+	}
+	slot := -1
+	for k, p := range to.Preds {
+		if p == from {
+			if n == 0 {
+				slot = k
+				break
+			}
+			n--
+		}
+	}
+	if slot < 0 || !l.fi.back[to][slot] {
+		return false
+	}
+	if cond.Op == "false" {
+		return true
+	}
+	vars := l.loopVars(ls, func(p *ssa.Phi) Value { return l.get(p.Edges[slot]) })
+	for i, inv := range l.evalInvariants(ls, st, vars) {
+		t := b.Implies(cond, inv)
+		if t.Op != "true" {
+			x.obligs = append(x.obligs, NamedTerm{fmt.Sprintf("%s/loop#%d/preserve#%d", fnKey(l.fn), ls.ordinal, i), t})
+		}
+	}
+	for _, g := range x.frameGoals(ls.headHeap, st.h, ls.mods, nil) {
+		t := b.Implies(cond, g.T)
+		if t.Op != "true" {
+			x.obligs = append(x.obligs, NamedTerm{fmt.Sprintf("%s/loop#%d/%s", fnKey(l.fn), ls.ordinal, g.Name), t})
+		}
+	}
+	return true
 }
 
-func (l *loopCtx) next(i *ssa.Next, iter Value, st *State, pc *Term) Value {
-	unsupported("range iteration")
-	return nil
-}
-
+// rangeStart: only maps (slices and strings are lowered to index loops by go/ssa).
 func (x *Exec) rangeStart(i *ssa.Range, v Value) Value {
-	unsupported("range")
-	return nil
+	m, ok := v.(*MapV)
+	if !ok {
+		unsupported("range over %T", v)
+	}
+	ks, _ := mapObjSorts(m.T)
+	x.seq++
+	it := &IterV{Map: m, Visited: x.b.ConstArr(Arr(ks, BoolS()), x.b.False()), id: x.seq}
+	x.iters = append(x.iters, it)
+	return it
 }
+
+// next models one step of a range-over-map iteration: the runtime picks any
+// key that is present now and has not been produced yet.
+func (l *loopCtx) next(i *ssa.Next, iter Value, st *State, pc *Term) Value {
+	x, b := l.x, l.x.b
+	it, ok := iter.(*IterV)
+	if !ok {
+		unsupported("next on %T", iter)
+	}
+
+	m := it.Map
+	mt := m.T
+	ks, vs := mapObjSorts(mt)
+	var present, vals *Term
+	if m.Obj == nil {
+		present = b.ConstArr(Arr(ks, BoolS()), b.False())
+	} else {
+		mv := st.h[m.Obj].(*StructV)
+		present = mv.F[0].(*Term)
+		if mv.F[1] != nil {
+			vals = mv.F[1].(*Term)
+		}
+	}
+	nilm := x.mapNil(m)
+	k := b.Fresh("rangekey", ks)
+	okv := b.Fresh("rangeok", BoolS())
+	cand := func(key *Term) *Term {
+		return b.AndN(b.Not(nilm), b.Select(present, key), b.Not(b.Select(it.Visited, key)))
+	}
+	// ok  => k is such a key;  !ok => there is none
+	x.assume(b.Implies(pc, b.Implies(okv, cand(k))))
+	j := b.BoundVar("j", ks)
+	x.assume(b.Implies(pc, b.Implies(b.Not(okv), b.Forall([]*Term{j}, b.Not(cand(j))))))
+	it.Visited = b.Ite(okv, b.Store(it.Visited, k, b.True()), it.Visited)
+	var val Value
+	if vs != nil && vals != nil {
+		val = b.Select(vals, k)
+	} else {
+		val = x.zeroV(mt.Elem())
+	}
+	return &TupleV{E: []Value{okv, k, val}}
+}
+
+var _ = types.Typ
